@@ -214,8 +214,16 @@ package sftp
 // (every packet type's encoder returns at least the length word, the type byte and an id / version word; proved per type
 //  under C06 for the 25 tabled types, assumed here for whatever implements encoding.BinaryMarshaler)
 
+//@ ghost var plen int
+//@ ghost var pwrote bool
+
 //@ func sendPacket
-//@   property C04, C06
+//@   property C04, C06, C03
+//@   update after call marshalPacket#1: ghost.plen = len(ret1)
+//@   update after call marshalPacket#1: ghost.pwrote = false
+//@   update after call (io.Writer).Write#2: ghost.pwrote = true
+//@   ensures result == nil && ghost.plen > 0 ==> ghost.pwrote
+// (C03 / C06: every byte the length prefix announces is written: a payload of a single byte included)
 //@   requires w != nil && m != nil
 //@   requires typeis(w, *conn) ==> locked(&w.(*conn).Mutex)
 //@   update before call marshalPacket#1: ghost.swErr = false
@@ -543,6 +551,8 @@ package sftp
 //@   ensures result != nil
 
 //@ func (resChanPool).Put
+//@   assert before select#1: arg0 == p
+// (C03 / C04: giving a channel back never blocks: a full pool drops it)
 //@   requires cap(ch) >= 1
 //@   property C20, C01
 //@   requires ch != nil
@@ -553,8 +563,18 @@ package sftp
 //@   ensures len(result) == p.blen
 
 //@ ghost var gotStatus bool
+//@ ghost var wOpen bool
+//@ ghost var shortSeen bool
+//@ ghost var sentErr bool
+//@ ghost var nShort int
+//@ ghost var nRep int
 
 //@ func (*File).WriteTo$3
+//@   loop 1 ghost wOpen
+//@   update after recv readCh#1: ghost.wOpen = ret1
+//@   ensures !ghost.wOpen
+// (C04: a worker leaves its loop only when the work channel has been closed: it keeps draining after an error, or the feeder blocks for ever)
+//@   property C08
 //@   loop 1 ghost gotStatus
 //@   update after recv res#1: ghost.gotStatus = ret.err == nil && ret.typ == sshFxpStatus
 //@   assert before send cur#1: ghost.gotStatus ==> arg1.err != nil && len(arg1.b) == 0
@@ -571,6 +591,11 @@ package sftp
 //@   requires pool != nil && pool.blen > 0 && pool.blen <= 0x7fffffff && pool.blen == chunkSize
 
 //@ func (*File).writeAtConcurrent$2
+//@   loop 1 ghost wOpen
+//@   update after recv workCh#1: ghost.wOpen = ret1
+//@   ensures !ghost.wOpen
+// (C04: a worker leaves its loop only when the work channel has been closed: it keeps draining after an error, or the feeder blocks for ever)
+//@   property C08
 //@   assert before call (resChanPool).Put#*: ghost.wTaken - ghost.wDone == old(ghost.wTaken) - old(ghost.wDone)
 // (C03: a result channel goes back to the pool -- to be handed to the next request -- only after the reply it was waiting for has been taken from it)
 //@   loop 1 ghost wTaken, wDone
@@ -585,6 +610,11 @@ package sftp
 //@   loop 1 invariant attr(errCh, lo) == attr(workCh, lo) && attr(errCh, hi) == attr(workCh, hi)
 
 //@ func (*File).readFromWithConcurrency$2
+//@   loop 1 ghost wOpen
+//@   update after recv workCh#1: ghost.wOpen = ret1
+//@   ensures !ghost.wOpen
+// (C04: a worker leaves its loop only when the work channel has been closed: it keeps draining after an error, or the feeder blocks for ever)
+//@   property C08
 //@   assert before call (resChanPool).Put#*: ghost.wTaken - ghost.wDone == old(ghost.wTaken) - old(ghost.wDone)
 // (C03: a result channel goes back to the pool -- to be handed to the next request -- only after the reply it was waiting for has been taken from it)
 //@   loop 1 ghost wTaken, wDone
@@ -897,6 +927,9 @@ package sftp
 //@   ensures err == os.ErrNotExist ==> result.Code == sshFxNoSuchFile
 //@   ensures err == os.ErrPermission ==> result.Code == sshFxPermissionDenied
 //@   ensures err == io.EOF ==> result.Code == sshFxEOF
+//@   ensures err == io.ErrUnexpectedEOF ==> result.Code == sshFxFailure
+// (C01 / C13: only io.EOF is the end of the file; io.ErrUnexpectedEOF -- a read that broke off -- is a failure, or the
+//  client would take a damaged transfer for a complete one)
 //@   ensures typeis(err, syscall.Errno) ==> result.Code == translateErrno(err.(syscall.Errno))
 //@   ensures isErr(err, os.ErrPermission) && !notExistShape(err) ==> result.Code == sshFxPermissionDenied
 //@   ensures isErr(err, io.EOF) && !isErr(err, os.ErrPermission) && !notExistShape(err) ==> result.Code == sshFxEOF
@@ -1001,6 +1034,9 @@ package sftp
 //@ ghost var rdBuf []os.FileInfo
 
 //@ func (*sshFxpReaddirPacket).respond
+//@   assert before call (file).Readdir#1: arg1 >= 1 && arg1 <= 128
+// (C16: a batch is small enough for its NAME reply to stay below the 256 KiB message limit whatever the names: 128
+//  entries of at most 255-byte names, twice each (name and long name), plus attributes)
 //@   update after call (file).Readdir#1: ghost.rdBuf = ret0
 //@   loop 1 invariant ret != nil && older(ret) && older(ret.NameAttrs) && len(ret.NameAttrs) == rangeindex + 1 && rangeindex < len(dirents) && ret.ID == p.ID
 //@   loop 1 invariant forall(k, 0 <= k && k < len(ret.NameAttrs) ==> ret.NameAttrs[k] != nil && older(ret.NameAttrs[k]) && older(ret.NameAttrs[k].Attrs))
@@ -1114,7 +1150,13 @@ package sftp
 //@   ensures err == nil ==> fs != nil
 //@   modifies ghost.extL0
 
+//@ ghost var svErr error
+
 //@ func (*sshFxpExtendedPacketStatVFS).respond
+//@   update after call getStatVFSForPath#1: ghost.svErr = ret1
+//@   assert before call statusFromError#1: arg1 == ghost.svErr && arg0 == p.ID
+// (C05: a failed statvfs is reported with the error Statfs returned -- its errno decides the status code, as for every
+//  other path operation)
 //@   update after call (*Server).toLocalPath#*: ghost.lp2 = ghost.lp1
 //@   update after call (*Server).toLocalPath#*: ghost.lpa2 = ghost.lpa1
 //@   update after call (*Server).toLocalPath#*: ghost.lp1 = ret
@@ -1201,7 +1243,24 @@ package sftp
 // (the controller is told to stop only after every registered request has been answered: working.Wait() precedes close(fini))
 //@ ghost var sweeping bool
 
+//@ ghost var nFree int
+
+//@ func (*Server).Serve$1
+//@   property C18
+//@   requires svr != nil && svr.pktMgr != nil
+//@   update after call (*allocator).Free#*: ghost.nFree = ghost.nFree + 1
+//@   ensures svr.pktMgr.alloc != nil ==> ghost.nFree == old(ghost.nFree) + 1
+//@ func (*RequestServer).Serve$1
+//@   property C18
+//@   requires rs != nil && rs.pktMgr != nil
+//@   update after call (*allocator).Free#*: ghost.nFree = ghost.nFree + 1
+//@   ensures rs.pktMgr.alloc != nil ==> ghost.nFree == old(ghost.nFree) + 1
+
 //@ func (*Server).Serve
+//@   update after call (*allocator).Free#*: ghost.nFree = ghost.nFree + 1
+//@   ensures svr.pktMgr.alloc != nil ==> ghost.nFree == old(ghost.nFree) + 1
+// (C18: however the session ends -- cleanly, on a malformed packet, on a broken stream -- the allocator is emptied before
+//  Serve returns: once all responses are out no buffer is still marked in use)
 //@   update before call (*packetManager).workerChan#1: ghost.ctlJoined = false
 //@   update after call (*packetManager).wait#1: ghost.ctlJoined = true
 //@   assert before call (*packetManager).wait#1: ghost.workersJoined
@@ -1707,6 +1766,8 @@ package sftp
 //@   ensures typeis(result, *sshFxpNamePacket)
 
 //@ func (*Request).call
+//@   assert before call readlink#1: typeis(handlers.FileList, ReadlinkFileLister) && arg0 == handlers.FileList.(ReadlinkFileLister)
+// (C10: READLINK goes to the optional Readlink method of the list handler -- the handler that also serves the Stat fallback)
 //@   ensures ghost.hclosed == old(ghost.hclosed)
 //@   assert before call (io.Closer).Close#*: false
 //@   property C14
@@ -1735,7 +1796,19 @@ package sftp
 
 //@ ghost var curID uint32
 
+//@ ghost var pendH bool
+
 //@ func (*RequestServer).packetWorker
+//@   assert before call statusFromError#6: arg1 == ErrSSHFxOpUnsupported
+// (C19: a request of a type the server does not serve -- an extended request under a name it does not know -- is answered
+//  as unsupported, not as a bad message)
+//@   loop 1 ghost pendH
+//@   update after recv pktChan#1: ghost.pendH = false
+//@   update after call (*RequestServer).nextRequest#*: ghost.pendH = true
+//@   update after call (*RequestServer).closeRequest#*: ghost.pendH = false
+//@   assert before call (*packetManager).readyPacket#1: ghost.pendH ==> typeis(arg1.responsePacket, *sshFxpHandlePacket)
+// (C11: a handle allocated for an OPEN / OPENDIR stays in the table only if the reply hands it to the client; every
+//  other way out of the case drops it again)
 //@   loop 1 ghost reqFresh, freshReq
 //@   update after recv pktChan#1: ghost.reqFresh = false
 //@   update after call requestFromPacket#3: ghost.reqFresh = true
@@ -1794,6 +1867,10 @@ package sftp
 //@ func (*allocator).ReleasePages
 //@   property C18
 //@   vars i int
+//@   vars j int
+//@   ensures len(a.available) == old(len(a.available)) + old(len(a.used[requestOrderID]))
+//@   ensures 0 <= j && j < old(len(a.used[requestOrderID])) ==> samearray(a.available[old(len(a.available)) + j], old(a.used[requestOrderID][j]))
+// (C18: exactly the pages of the request go back to the free list, each of them once: no page enters the pool twice)
 //@   requires a != nil && a.used != nil
 //@   assume after call (*sync.Mutex).Lock#1: availOK(a)
 //@   ensures a.used != nil && !haskey(a.used, requestOrderID)
@@ -1830,6 +1907,8 @@ package sftp
 //@ ghost var notified bool
 
 //@ func (*RequestServer).Serve
+//@   update after call (*allocator).Free#*: ghost.nFree = ghost.nFree + 1
+//@   ensures rs.pktMgr.alloc != nil ==> ghost.nFree == old(ghost.nFree) + 1
 //@   update before call (*packetManager).workerChan#1: ghost.ctlJoined = false
 //@   update after call (*packetManager).wait#1: ghost.ctlJoined = true
 //@   assert before call (*packetManager).wait#1: ghost.workersJoined
@@ -1858,8 +1937,13 @@ package sftp
 //@ ghost var rxSeen int
 //@ ghost var rxRouted int
 
+//@ ghost var nConnCl int
+
 //@ func (*clientConn).recv
 //@   property C20, C03, C04, C15, C08
+//@   update after call (*conn).Close#*: ghost.nConnCl = ghost.nConnCl + 1
+//@   ensures ghost.nConnCl == old(ghost.nConnCl) + 1
+// (C04: whichever way the receiver ends, it closes the writer to the peer: a transport whose Wait depends on it returns)
 //@   loop 1 ghost rxSeen, rxRouted
 //@   update after call (*conn).recvPacket#1: ghost.rxSeen = ghost.rxSeen + 1
 //@   update before send ch#1: ghost.rxRouted = ghost.rxRouted + 1
@@ -1999,6 +2083,19 @@ package sftp
 //  the start, within [0, len(b)])
 
 //@ func (*File).readAt$2
+//@   loop 1 ghost shortSeen, nShort, nRep
+//@   update after recv workCh#1: ghost.shortSeen = false
+//@   update after call copy#1: ghost.shortSeen = ret < len(packet.b)
+//@   update after call copy#1: ghost.nShort = ghost.nShort + ite(ret < len(packet.b), 1, 0)
+//@   update before send errCh#1: ghost.nRep = ghost.nRep + ite(ghost.shortSeen, 1, 0)
+//@   loop 1 invariant ghost.nShort - ghost.nRep == old(ghost.nShort) - old(ghost.nRep)
+// (C12 / C13: a DATA reply shorter than the chunk asked for is the end of the file at that offset and is reported as
+//  such, whether it is empty or not)
+//@   loop 1 ghost wOpen
+//@   update after recv workCh#1: ghost.wOpen = ret1
+//@   ensures !ghost.wOpen
+// (C04: a worker leaves its loop only when the work channel has been closed: it keeps draining after an error, or the feeder blocks for ever)
+//@   property C08
 //@   assert before call (resChanPool).Put#*: ghost.wTaken - ghost.wDone == old(ghost.wTaken) - old(ghost.wDone)
 // (C03: a result channel goes back to the pool -- to be handed to the next request -- only after the reply it was waiting for has been taken from it)
 //@   loop 1 ghost wTaken, wDone
@@ -2158,12 +2255,17 @@ package sftp
 //@   ensures old(f.handle) != "" && whence == io.SeekEnd && err == nil ==> pos == f.offset
 //@   ensures old(f.handle) != "" && whence != io.SeekStart && whence != io.SeekCurrent && whence != io.SeekEnd ==> err != nil && f.offset == old(f.offset)
 
+//@ ghost var hAtLock string
+
 //@ func (*File).Close
 //@   property C12
 //@   requires fileOK(f)
-//@   assert before call (*Client).close#1: arg1 == old(f.handle) && f.handle == "" && locked(&f.mu)
+//@   interference after call (*sync.RWMutex).Lock#1: f.handle
+//@   update after call (*sync.RWMutex).Lock#1: ghost.hAtLock = f.handle
+// (another Close may have run while this one waited for the lock: the handle is looked at under the lock)
+//@   assert before call (*Client).close#1: arg1 == ghost.hAtLock && arg1 != "" && f.handle == "" && locked(&f.mu)
 //@   ensures f.handle == "" && f.offset == old(f.offset)
-//@   ensures old(f.handle) == "" ==> result == os.ErrClosed && ghost.lastID == old(ghost.lastID)
+//@   ensures ghost.hAtLock == "" ==> result == os.ErrClosed && ghost.lastID == old(ghost.lastID)
 // (the handle is invalidated, under the write lock, before the CLOSE request is sent: no later request can carry it)
 
 //@ func (*File).Stat
@@ -3018,6 +3120,8 @@ package sftp
 
 //@ func (*root).fetch
 //@   property C16
+//@   assert before call path.Dir#1: arg0 == file.name
+// (a relative link target is resolved against the directory of the link being followed, not of the name first asked for)
 //@   results file, err
 //@   requires rootOK(fs)
 //@   loop 1 invariant file != nil && rootOK(fs)
@@ -3074,3 +3178,29 @@ package sftp
 // (assumed of options: each is a non-nil function that leaves the connection and the packet manager in place)
 //@   ensures result1 == nil ==> result0 != nil && serverOK(result0) && result0.Reader != nil
 //@   ensures result1 == nil && len(options) == 0 ==> !result0.readOnly && result0.maxTxPacket == 32768 && result0.pktMgr.alloc == nil
+
+// The example handler's file never keeps the caller's buffer: what WriteAt is given is copied into the file's own
+// storage (with the allocator that buffer is a page which is handed to the next request once the reply is out).
+//@ func (*memFile).WriteAt
+//@   property C18
+//@   requires f != nil && off >= 0 && off <= 0x10000000000 && len(b) <= 0x10000000000
+//@   ensures samearray(f.content, old(f.content)) || fresh(f.content)
+//@   ensures result1 == nil ==> result0 == len(b)
+
+// Order ids: one per received request, consecutive; the peek that registers the receive page announces exactly the id
+// the request is then given.
+//@ func (*packetManager).newOrderID
+//@   property C02, C15, C18
+//@   requires s != nil
+//@   ensures result == old(s.packetCount) + 1 && s.packetCount == result
+//@   modifies s.packetCount
+//@ func (*packetManager).getNextOrderID
+//@   property C02, C15, C18
+//@   requires s != nil
+//@   ensures result == s.packetCount + 1
+//@   modifies nothing
+//@ func (*packetManager).newOrderedRequest
+//@   property C02, C15, C18
+//@   requires s != nil
+//@   ensures result.orderid == old(s.packetCount) + 1 && s.packetCount == old(s.packetCount) + 1 && result.requestPacket == p
+//@   modifies s.packetCount
